@@ -120,7 +120,8 @@ def gen_scenarios(spec, rng, n):
 def gen_op(spec, rng, codec, fs, s, m, oid):
     pkg = fs["package"]
     op = {"id": oid, "kind": "lro", "service": s["name"], "method": m["name"], "form": rng.choice(["dict", "msg"]),
-          "request": {"name": "projects/p1/things/t" + str(rng.randint(1, 9))}, "call": {},
+          "request": ({"name": "projects/p1/things/t" + str(rng.randint(1, 9))}
+                      if "name" in codec.desc(m["input"]).fields_by_name else {}), "call": {},
           "op_name": f"projects/p1/operations/{oid}-{rng.randint(100, 999)}"}
     if m.get("lro") is None:
         op["raw"] = True
